@@ -74,13 +74,13 @@ def shards(tier):
     out = [{'kind': 'mixed'}]
     out += [{'kind': 'fresh', 'i': i, 'k': 8} for i in range(8)]
     out += [dict(s, kind='sigma') for s in strings.shards('quick' if tier == 'quick' else 'thorough')]
-    plan = 'small-quick' if tier == 'quick' else 'small-thorough'
+    plan = 'small-quick' if tier == 'quick' else 'ws-thorough'
     out += [dict(s, kind='ws', tier=tier) for s in layers.shards(plan, ('args',))]
     return out
 
 
 def prepare(tier):
-    layers.prepare('small-quick' if tier == 'quick' else 'small-thorough')
+    layers.prepare('small-quick' if tier == 'quick' else 'ws-thorough')
 
 
 def ws_variants(text, two):
@@ -110,7 +110,7 @@ def run_shard(shard):
         for s in strings.iter_strings(shard):
             check_string(acc, s, 'sigma-' + shard['alpha'])
     else:
-        two = shard['tier'] != 'quick'
+        two = shard['tier'] != 'quick' and shard.get('n', 9) <= 3     # pairs of separators: documents of <= 3 constructs
         for text, items in layers.iter_docs(shard):
             check_string(acc, text, 'doc')
             for s in ws_variants(text, two):
@@ -134,7 +134,7 @@ SIGNATURES = {}
 
 def coverage(tier, total):
     plan = 'quick' if tier == 'quick' else 'thorough'
-    lp = 'small-quick' if tier == 'quick' else 'small-thorough'
+    lp = 'small-quick' if tier == 'quick' else 'ws-thorough'
     return {
         'rule': 'all strings of <= n symbols over the token-kind alphabets (%s) that satisfy the side conditions and parse '
                 'in strict mode; every L_wf document of (%s) and its variants with an attaching separator from %r before '
@@ -142,7 +142,7 @@ def coverage(tier, total):
                 'times.  distinct = distinct parseable inputs' % (
                     ', '.join('%s n<=%d' % p for p in strings.PLAN[plan]),
                     ', '.join('%s <= %d nodes' % p for p in layers.PLAN[lp]), ATTACHING,
-                    'one' if tier == 'quick' else 'one or two', FAMILIES),
+                    'one' if tier == 'quick' else 'one, or two (documents of <= 3 constructs)', FAMILIES),
         'skipped_side_condition': int(total.extra['skipped_side_condition']),
         'strict_failures_not_judged': int(total.extra['strict_failures']),
         'representatives': gram.Names(seed()).describe(),
